@@ -624,6 +624,28 @@ func flagOfOptionArg(p *Prog, v ssa.Value) string {
 				return regs[0].Name + " via " + StaticCallee(&c.Call).Name()
 			}
 		}
+		// the parser call sits in a shared helper and parses the helper's parameter: every call site of the
+		// helper must pass an options field bound to one and the same flag name
+		if prm, isP := c.Call.Args[0].(*ssa.Parameter); isP {
+			name, okAll := "", true
+			args := p.ArgsBoundTo(prm)
+			for _, a := range args {
+				raw := fieldVarOfLoad(a)
+				if raw == nil {
+					okAll = false
+					break
+				}
+				regs := p.FlagsOfField(raw)
+				if len(regs) != 1 || (name != "" && regs[0].Name != name) {
+					okAll = false
+					break
+				}
+				name = regs[0].Name
+			}
+			if okAll && name != "" && len(args) > 0 {
+				return name + " via " + StaticCallee(&c.Call).Name()
+			}
+		}
 	}
 	return ""
 }
@@ -960,6 +982,14 @@ func checkLinkAlways(p *Prog, r *Report, rule string, fn *ssa.Function, c *ssa.C
 					if pc, isPC := ex.Tuple.(*ssa.Call); isPC && len(pc.Call.Args) > 0 {
 						if raw := fieldVarOfLoad(pc.Call.Args[0]); raw != nil {
 							regs = append(regs, p.FlagsOfField(raw)...)
+						}
+						// parsed inside a shared helper from the helper's parameter: the fields bound at its call sites
+						if prm, isP := pc.Call.Args[0].(*ssa.Parameter); isP {
+							for _, a := range p.ArgsBoundTo(prm) {
+								if raw := fieldVarOfLoad(a); raw != nil {
+									regs = append(regs, p.FlagsOfField(raw)...)
+								}
+							}
 						}
 					}
 				}
